@@ -42,6 +42,8 @@ def run_parsers(R, tonic, comp, enabled, tag=''):
             kind, val = classify_result(b, w)
             if kind == 'some':
                 g = guards_enabled(cons)
+                tsub = [s for s, op, v in cons if re.search(r'\[const\(0\)\]$', s) or (op == '==' and isinstance(v, (str, bytes)))]
+                R.check(bool(tsub) and all('as_bytes' in x and 'to_str' not in x for x in tsub), 'C05.R1', 'enc:token-on-raw-bytes:%s%s' % (val, tag), site(b, bb), 'token compared on %s' % (tsub[:1],))
                 R.check(tok == encs.get(val, {}).get('token'), 'C05.R1', 'enc:token:%s%s' % (val, tag), site(b, bb), 'token %r selects %s (spec token %r)' % (tok, val, encs.get(val, {}).get('token')))
                 R.check(g.get(val) is True, 'C05.R1', 'enc:guard:%s%s' % (val, tag), site(b, bb),
                         'row %r -> Some(%s) is guarded by is_enabled(%s)=%r; all guards on the row: %r' % (tok, val, val, g.get(val), g))
@@ -50,7 +52,11 @@ def run_parsers(R, tonic, comp, enabled, tag=''):
                 if tok == comp['identity']:
                     ident = True
                 elif tok is None and any(s.startswith('discr(') and 'get(' in s for s, op, v in cons):
-                    absent = True
+                    subj = [s for s, op, v in cons if s.startswith('discr(') and 'get(' in s][0]
+                    pure = not re.search(r'and_then|to_str|::ok\(|map\(|filter', subj)
+                    R.check(pure, 'C05.R1', 'enc:absent-is-really-absent' + tag, site(b, bb),
+                            'Ok(None) for "no header" is decided on %s; it must be the raw HeaderMap::get result (a value that fails a str conversion, e.g. non-ASCII bytes, is not absent and must be refused)' % subj)
+                    absent = pure
                 else:
                     R.bad('C05.R1', 'enc:none-row:%r%s' % (tok, tag), site(b, bb), 'token %r yields Ok(None)' % tok)
             elif kind == 'err':
